@@ -359,10 +359,12 @@ class Loader:
     def load_allocations(self):
         """Load allocations and assignments map."""
         data = self.backend.get_default(z.ALLOCATIONS, default={})
+        # The assignments of the previous load do not outlive it, also when
+        # there is no allocation left.
+        self.assignments = collections.defaultdict(list)
         if not data:
             return
 
-        self.assignments = collections.defaultdict(list)
         for obj in data:
             partition = obj.get('partition')
             name = obj['name']
